@@ -213,7 +213,7 @@ type c03Case struct {
 func c03GenCase(t *rapid.T) c03Case {
 	var c c03Case
 	c.NSMode = rapid.IntRange(0, 4).Draw(t, "nsMode") == 0
-	c.Constr = rapid.Bool().Draw(t, "constrained") && verifx.EnvInt("VERIF_C03_CORE_ONLY", 0) == 0
+	c.Constr = rapid.Bool().Draw(t, "constrained")
 	full := c03GenPath(t, c.NSMode)
 	if c.NSMode && strings.HasPrefix(full, "ns1/") && len(full) > 4 && rapid.Bool().Draw(t, "reqInNS1") {
 		c.Req.NS, c.Req.Path = "ns1/", full[4:]
@@ -419,7 +419,6 @@ func c03CheckCaseWith(tb verifx.TB, rec *verifx.Recorder, c c03Case, ix *c03Inde
 		}
 	}
 	first := make([]c03Got, len(c03Ops))
-	refs := make([]c03Ref, len(c03Ops))
 	full := c.Req.NS + c.Req.Path
 	for oi, op := range c03Ops {
 		got := c03Ask(acl0, c.Req, op)
@@ -429,7 +428,6 @@ func c03CheckCaseWith(tb verifx.TB, rec *verifx.Recorder, c c03Case, ix *c03Inde
 			return
 		}
 		ref := ix.Decide(c.Req, op)
-		refs[oi] = ref
 		rec.Class("decision:"+ref.V.String()+":"+ref.Why, 1)
 		if ref.NMatch >= 2 || ref.NGroup >= 2 || ref.Constraint {
 			nt = true
@@ -468,19 +466,17 @@ func c03CheckCaseWith(tb verifx.TB, rec *verifx.Recorder, c c03Case, ix *c03Inde
 			}
 		}
 		// sudo / root privileges
-		if ref.V != c03Unclear || ref.Pattern != "" {
-			if ref.PatternClear && ref.V != c03Unclear {
-				sudo := ref.Caps["sudo"] && !ref.Deny
-				if got.RootPrivs && !sudo {
-					rec.Violation(tb, "rootprivs-without-sudo", detail(map[string]any{"op": op, "winning_pattern": ref.Pattern}),
-						"%s %q: RootPrivs reported but the winning pattern %q does not grant sudo (caps %v)", op, full, ref.Pattern, c03Keys(ref.Caps))
-					return
-				}
-				if got.Allowed && sudo && !got.RootPrivs {
-					rec.Violation(tb, "sudo-not-reported", detail(map[string]any{"op": op, "winning_pattern": ref.Pattern}),
-						"%s %q: allowed by pattern %q which grants sudo, but RootPrivs is false", op, full, ref.Pattern)
-					return
-				}
+		if ref.PatternClear && ref.V != c03Unclear {
+			sudo := ref.Caps["sudo"] && !ref.Deny
+			if got.RootPrivs && !sudo {
+				rec.Violation(tb, "rootprivs-without-sudo", detail(map[string]any{"op": op, "winning_pattern": ref.Pattern}),
+					"%s %q: RootPrivs reported but the winning pattern %q does not grant sudo (caps %v)", op, full, ref.Pattern, c03Keys(ref.Caps))
+				return
+			}
+			if got.Allowed && sudo && !got.RootPrivs {
+				rec.Violation(tb, "sudo-not-reported", detail(map[string]any{"op": op, "winning_pattern": ref.Pattern}),
+					"%s %q: allowed by pattern %q which grants sudo, but RootPrivs is false", op, full, ref.Pattern)
+				return
 			}
 		}
 		// pagination: the effective limit handed on to the backend
@@ -552,7 +548,7 @@ func c03CheckCaseWith(tb verifx.TB, rec *verifx.Recorder, c c03Case, ix *c03Inde
 				// DOCS SILENT: Capabilities() looks a path up the way list/scan do (fallback to the path without the
 				// trailing slash), so for "x/" it can report read/update/... which those operations on "x/" do not get.
 				if g := c03Ask(acl0, bare, op); !g.Allowed && c03Contains(capsGot, op) {
-					rec.Class("observation:capabilities-reports-"+"non-list-cap-on-trailing-slash-path-that-the-operation-is-denied", 1)
+					rec.Class("observation:capabilities-lists-a-capability-whose-operation-is-denied-on-this-trailing-slash-path", 1)
 				}
 				continue
 			}
@@ -653,7 +649,6 @@ func c03CheckCaseWith(tb verifx.TB, rec *verifx.Recorder, c c03Case, ix *c03Inde
 			return
 		}
 	}
-	_ = refs
 	rec.Case(class, nt, verifx.Digest(fmt.Sprint(c.Pols), fmt.Sprint(c.Req)), func() any { return c03Describe(c) })
 }
 
